@@ -31,7 +31,8 @@ def run(ctx):
                 s = cond_slice(F, c)
                 # a test that involves the cap (4th parameter) or compares the end of the legacy run with the leader's last index (3rd)
                 return any(x[0] == "param" and x[1] in (3, 4) for x in s.sources)
-            ok, wit, _ = guarded_by(mb, bi, cap_related, conds)
+            ok, _hits = control_dependent_on(mb, bi, cap_related, conds)
+            wit = None
             trunc = [x for x, _ in calls_matching(mb, r"Vec::truncate$") if mb.dominates(bi, x)]
             ctx.check("C08-a", "%s#new-entries-after-capped-legacy" % fkey(f), ok or bool(trunc),
                       "new entries are appended only when the older run reaches them (or the cap is applied to the concatenation)",
